@@ -175,7 +175,10 @@ M = [
     ("C18", "id-ordered-feature-iteration", INC, "            features_not_in_s = set(self.feature_names)\n",
      "            features_not_in_s = set(self.feature_names)\n            if id(x_i) % 3 == 0:\n                random.random() if False else __import__('random').random()\n"),
     # ---- C19 ---------------------------------------------------------------------------------------
-    ("C19", "stale-reservoirs-kept", TREES, "            self._delete_outdated_reservoirs(feature_name, root_node)\n", "            pass\n"),
+    ("C19", "stale-reservoirs-kept", TREES, "        self._delete_outdated_reservoirs(feature_name, root_node)\n        data_reservoir[leaf_id].update(x)\n",
+     "        if len(data_reservoir) > 2 * self._leaf_reservoir_length:\n            self._delete_outdated_reservoirs(feature_name, root_node)\n        data_reservoir[leaf_id].update(x)\n"),
+    ("C19", "cleanup-only-on-new-leaf", TREES, "        # an adaptive tree can be restructured (e.g. an alternate subtree is swapped in) while the current point is\n        # routed to a leaf id that already exists, so outdated reservoirs have to be looked for on every update\n        self._delete_outdated_reservoirs(feature_name, root_node)\n",
+     "            self._delete_outdated_reservoirs(feature_name, root_node)\n"),
     ("C19", "default-acceptance-probability", TREES, "                size=self._leaf_reservoir_length, store_targets=False, constant_probability=1.0)\n",
      "                size=self._leaf_reservoir_length, store_targets=False)\n"),
     ("C19", "incomplete-points-stored", TREES, "        data_reservoir[leaf_id].update(x)\n", "        data_reservoir[leaf_id].update(x_i)\n"),
